@@ -41,7 +41,13 @@ def _any_sym(vals):
     return any(isinstance(v, (SymInt, SymBool, SymSeq)) for v in vals)
 
 
+def _fmt_ok(fmt):
+    if not isinstance(fmt, (str, bytes)):
+        raise TypeError("Struct() argument 1 must be a str or bytes object, not %s" % ("int" if isinstance(fmt, (SymInt, SymBool)) else type(fmt).__name__))
+
+
 def pack(fmt, *vals):
+    _fmt_ok(fmt)
     if not _any_sym(vals):
         return _s.pack(fmt, *vals)
     big, toks = _parse(fmt)
@@ -88,6 +94,9 @@ def pack(fmt, *vals):
 
 
 def unpack(fmt, data):
+    if isinstance(fmt, SymSeq):
+        raise TypeError("Struct() argument 1 must be a str or bytes object")
+    _fmt_ok(fmt)
     if not isinstance(data, SymSeq):
         return _s.unpack(fmt, data)
     if data.kind == "str":
